@@ -3,6 +3,7 @@ mod from_mds;
 mod from_srt;
 
 use crate::decoder::{DF, Plane};
+use chrono::Utc;
 
 pub trait UpdateFromDownlink<T> {
     fn update_from_downlink(&mut self, dl: &T);
@@ -10,6 +11,15 @@ pub trait UpdateFromDownlink<T> {
 
 impl UpdateFromDownlink<DF> for Plane {
     fn update_from_downlink(&mut self, dl: &DF) {
+        self.timestamp = Utc::now();
+        if let Some(df) = match dl {
+            DF::SRT(v) => v.df,
+            DF::EXT(v) => v.df,
+            DF::MDS(v) => v.df,
+        } {
+            self.last_df = df;
+        }
+
         match dl {
             DF::SRT(v) => self.update_from_downlink(v),
             DF::EXT(v) => self.update_from_downlink(v),
